@@ -331,7 +331,24 @@ def _requests(ctx, obj):
                 if entry == 'frame' and r.random() < 0.15:
                     planes.insert(r.randint(0, len(planes)), 'beyond')
                 rq['planes'] = planes
+            if entry == 'tpm' and r.random() < 0.5:
+                # a sub-region of the total pixel matrix (1-based, end exclusive)
+                R, C = d['rows'], d['cols']
+                r0 = r.randint(1, R)
+                c0 = r.randint(1, C)
+                rq['region'] = [r0, r.randint(r0 + 1, R + 1), c0, r.randint(c0 + 1, C + 1)]
             reqs.append(rq)
+    # boundary requests every object gets: the largest number alone and all numbers, combined, default dtype
+    # (decides uint8/uint16 at 255/256), and the raw FRACTIONAL values into small dtypes
+    first_entry = entries[0]
+    base = {'entry': first_entry, 'combine': True, 'relabel': False, 'skip': True, 'rescale': True, 'dtype': None,
+            'assert_missing': True, 'planes': list(range(min(P, 2))) if first_entry != 'tpm' else None, 'segs_none': False}
+    reqs.append(dict(base, segs=[max(d['nums'])]))
+    reqs.append(dict(base, segs=list(d['nums'])))
+    reqs.append(dict(base, segs=list(d['nums']), relabel=True))
+    if d['type'] == 'FRACTIONAL':
+        for dt in ('int8', 'bool', 'uint8', None):
+            reqs.append(dict(base, segs=list(d['nums']), combine=False, rescale=False, dtype=dt))
     return reqs
 
 
@@ -519,10 +536,16 @@ def _run_read(ctx, obj, rq, frames, info):
         call = lambda: seg.get_pixels_by_dimension_index_values(vals, assert_missing_frames_are_empty=rq['assert_missing'], **kw)  # noqa: E731
         model_keys = [tuple(v) for v in vals]
     elif entry == 'tpm':
-        plane_masks = [store[0]]
-        call = lambda: seg.get_total_pixel_matrix(**kw)  # noqa: E731
+        if rq.get('region'):
+            r0, r1, c0, c1 = rq['region']
+            plane_masks = [store[0][r0 - 1:r1 - 1, c0 - 1:c1 - 1]]
+            call = lambda: seg.get_total_pixel_matrix(row_start=r0, row_end=r1, column_start=c0, column_end=c1, **kw)  # noqa: E731
+            model_keys = None      # region reads: oracle only (the slice arithmetic is C04's)
+        else:
+            plane_masks = [store[0]]
+            call = lambda: seg.get_total_pixel_matrix(**kw)  # noqa: E731
+            model_keys = 'tiles'
         post = lambda a: np.asarray(a)[None]  # noqa: E731
-        model_keys = 'tiles'
     elif entry == 'volume':
         if d['kind'] == 'tiled':
             plane_masks = [store[0]]
@@ -570,7 +593,7 @@ def _run_read(ctx, obj, rq, frames, info):
              kind=d['kind'], via=d['via'], nseg=len(d['nums']), subset_size=len(rq['segs']),
              options=f"c{int(rq['combine'])}r{int(rq['relabel'])}s{int(rq['skip'])}f{int(rq['rescale'])}",
              dtype=str(rq['dtype']), outcome=outcome, expect=exp[0] if not must_refuse_missing else 'refuse-missing',
-             labels16=max(d['nums']) > 255)
+             labels16=max(d['nums']) > 255, region=bool(rq.get('region')))
     site = f"{entry}/{d['type']}/{'combine' if rq['combine'] else 'stack'}"
     if must_refuse_missing:
         if st == 'ok':
@@ -638,6 +661,15 @@ def _search(ctx, obj, reqs, pending):
         if not ok:
             ctx.fail({'obj': d, 'search': 'description', 'number': rec['number']}, f'description differs: {val}',
                      site='search/description')
+    for bad in ('automatic', 'NONE'):
+        st, val = _fetch(seg.get_segment_numbers, algorithm_type=bad)
+        ctx.case(entry='get_segment_numbers', outcome='ok' if st == 'ok' else _err_kind(val), filters='bad-algo')
+        if st == 'ok':
+            ctx.fail({'obj': d, 'search': 'numbers', 'filters': {'algorithm_type': bad}},
+                     'algorithm type outside the enumeration accepted', site='search/numbers')
+        reqs.append(('segmentNumbers', {'descs': _descs_json(seg), 'filters': {'algorithm_type': bad}, 'ppv': _ppv(seg)}))
+        pending.append(({'obj': d, 'search': 'numbers', 'filters': {'algorithm_type': bad}},
+                        ('ok', [int(x) for x in val]) if st == 'ok' else ('err', _err_kind(val)), 'exact'))
     for j in range(n):
         ks = [k for k in keys if r.random() < 0.3]
         flt = {}
@@ -873,6 +905,23 @@ def _helpers(ctx, reqs, pending):
     c = getattr(Seg, '_combine_segments', None)
     if c is None:
         ctx.note('L2 helper _combine_segments not found; skipped')
+    else:
+        nr = ctx.np_rng('combine', 0)
+        for i in range(ctx.n(30, 200)):
+            S = int(nr.integers(1, 7))
+            shape = (int(nr.integers(1, 3)), int(nr.integers(1, 4)), int(nr.integers(1, 4)), S)
+            lab = nr.integers(0, S + 1, size=shape[:3])
+            arr = np.stack([(lab == k + 1) for k in range(S)], axis=-1).astype(np.uint8)
+            dt = np.uint8 if i % 2 == 0 else np.uint16
+            st, val = _fetch(c, arr.copy(), dt)
+            impl = ('ok', [int(x) for x in np.asarray(val).reshape(-1)]) if st == 'ok' else ('err', _err_kind(val))
+            reqs.append(('combinePixels', {'pixels': arr.reshape(-1, S).tolist()}))
+            pending.append(({'helper': '_combine_segments', 'shape': list(shape), 'index': i, 'layer': 'L2'}, impl, 'exact'))
+            ctx.case(entry='helper/combine_segments')
+            # oracle: the combined value is the 1-based channel of the set segment, 0 for background
+            if st != 'ok' or not np.array_equal(np.asarray(val).astype(np.int64), lab):
+                ctx.fail({'helper': '_combine_segments', 'shape': list(shape), 'index': i},
+                         'stacked non-overlapping mask not combined into channel positions', site='helper/combine_segments')
 
 
 # ------------------------------------------------------------------------------------------ run
@@ -885,11 +934,24 @@ def _object_cases(ctx, d, reqs, pending):
         return
     frames = _stored_view(obj)
     info = _plane_lookup(obj, frames)
+    if d['type'] == 'LABELMAP' and d['form'] == 'stack4d' and d['kind'] != 'tiled':
+        # L1: the stored label planes are the model's construction-time combination of the stacked input
+        for f in frames:
+            p = (f['frame'] - 1) if d['kind'] == 'multiframe' else (info['uid_of_plane'].index(f['uid']) if f['uid'] else None)
+            if p is None:
+                continue
+            reqs.append(('labelPixels', {'nums': [int(x) for x in d['nums']],
+                                         'pixels': obj['store'][p].reshape(-1, len(d['nums'])).tolist()}))
+            pending.append(({'obj': d, 'stored_plane': p, 'layer': 'L1'},
+                            ('ok', [int(x) for x in np.asarray(f['pix']).reshape(-1)]), 'exact'))
+            ctx.case(entry='stored-labels')
     for rq in _requests(ctx, obj):
         res = _run_read(ctx, obj, rq, frames, info)
         if res is None:
             continue
         st, val, model_keys, rq2 = res
+        if model_keys is None:
+            continue
         reqs.append(_model_request(obj, rq2, frames, info, model_keys))
         pending.append(({'obj': d, 'req': rq2}, _impl_for_model(obj, rq2, st, val, model_keys), 'read'))
     _search(ctx, obj, reqs, pending)
